@@ -27,6 +27,9 @@ type cancelSpec struct {
 	Allow   bool   `json:"allow_failure"`
 	// interactive tasks: the runner's stdin (a pipe whose writer stays open and silent) is handed to the commands
 	Interactive bool `json:"interactive,omitempty"`
+	// Nested: the pipeline is itself included by a stage of an outer pipeline (a condition error or a Cancel then
+	// arrives inside a nested scheduling loop)
+	Nested bool `json:"nested,omitempty"`
 }
 
 // runCancelCase runs one injection in its own process. Returns "", "suspect" or "crash".
@@ -120,7 +123,7 @@ var confirmedSlow int32
 
 func c12(c *h.Ctx) {
 	c.Level = "fault_enumeration"
-	c.Rule = "fault enumeration, one child process per injection: Cancel injected {before any run, parked at the before-hook, during command (sleep / shell busy loop / child ignoring SIGINT), exactly between two commands, before the output is stored, after the last task finished, from a stage-condition error} x 0..4 tasks in flight x 0..3 stages waiting x {TaskRunner.Cancel, Scheduler.Cancel} x {once, twice in a row, three concurrent callers}, interactive tasks reading an open, silent stdin pipe, runs parked at verif hook points so that the injection lands exactly there; free-running variant with seeded cancel times under the race detector. Monitors: parent observes crash / dead-lock dump; trace markers CANCEL_CALL / CANCEL_RET vs S:/E: tokens; spawned pids gone; interrupted or unstarted task must not report success; a Run after Cancel must fail. non-trivial = every distinct injection spec"
+	c.Rule = "fault enumeration, one child process per injection: Cancel injected {before any run, parked at the before-hook, during command (sleep / shell busy loop / child ignoring SIGINT), exactly between two commands, before the output is stored, after the last task finished, from a stage-condition error} x 0..4 tasks in flight x 0..3 stages waiting x {TaskRunner.Cancel, Scheduler.Cancel} x {once, twice in a row, three concurrent callers}, interactive tasks reading an open, silent stdin pipe, the pipeline itself included by an outer pipeline, runs parked at verif hook points so that the injection lands exactly there; free-running variant with seeded cancel times under the race detector. Monitors: parent observes crash / dead-lock dump; trace markers CANCEL_CALL / CANCEL_RET vs S:/E: tokens; spawned pids gone; interrupted or unstarted task must not report success; a Run after Cancel must fail. non-trivial = every distinct injection spec"
 	c.Assumptions = []string{"tasks whose last command finished before Cancel was called may report success", "bounded progress: Cancel/Run/Schedule must return within 2 s kill grace + 10 s; a firing watchdog is a violation at once only if the goroutine dump shows every taskctl goroutine parked, otherwise the case is repeated three times", "no execution-context hooks in these workloads (they run under context.Background by design)"}
 	var specs []cancelSpec
 	rnd := c.Rand("specs")
@@ -175,6 +178,14 @@ func c12(c *h.Ctx) {
 					via = "scheduler"
 				}
 				add(cancelSpec{K: k, W: len(specs) % 2, Mode: mode, Point: "during-command", Cancels: "once", Via: via, Cmd: cmd, Interactive: true})
+			}
+		}
+	}
+	for k := 0; k <= 2; k++ {
+		for _, w := range []int{1, 2} {
+			add(cancelSpec{K: k, W: w, Mode: "pipeline", Point: "cond-error", Cancels: "once", Via: "cond", Cmd: "sleep", Nested: true})
+			if k > 0 {
+				add(cancelSpec{K: k, W: w, Mode: "pipeline", Point: "during-command", Cancels: []string{"once", "concurrent"}[w-1], Via: "scheduler", Cmd: "sleep", Nested: true})
 			}
 		}
 	}
